@@ -46,10 +46,11 @@ import re
 import shutil
 import sys
 import threading
+import time
 
 sys.path.insert(0, os.path.dirname(os.path.abspath(__file__)))
 import common  # noqa: E402
-from common import FORMAT_DIFF, Run, Scratch, base_env, parallel_map, require_bins  # noqa: E402
+from common import FORMAT_DIFF, Run, Scratch, base_env, require_bins  # noqa: E402
 
 PROP = "C19"
 
@@ -505,7 +506,7 @@ def combos_for(sections):
     out = []
     for p in range(pmax + 1):
         for fname, _a, valid in FILTERS:
-            if valid:
+            if valid and not (fname == "rs" and p > 0):  # explicit default pattern: once per diff
                 out.append((p, fname, 0))
         out.append((p, "default", 1))
     out.append((0, "invalid", 0))
@@ -587,98 +588,146 @@ def run_diffcase(dc):
 
 
 # --------------------------------------------------------------------------- reduction of violations
+#
+# Every step replaces the case by a strictly simpler one (fewer files, smaller -p, default filter,
+# GNU style, fewer context lines, fewer lines, more `Q` lines, earlier file name) that STILL shows the
+# same kind of violation when run against the real binaries; the fixpoint is the reported witness.
 
-_MEMO = {}
+_MEMO = {}  # case id -> what (shared between the worker processes when a manager is installed)
+_WIT = {}  # case id + what -> witness (json)
+NAME_POOL = ["x.rs", "y.rs", "a/b/c.rs", "a/b/d.rs", "src/m.txt"]
 
 
 def still_fails(case, what):
     k = case_id(case)
-    if k not in _MEMO:
+    w = _MEMO.get(k, "?")
+    if w == "?":
         try:
-            if not changed_any(case):
-                _MEMO[k] = None
-            else:
-                r = evaluate(case)
-                _MEMO[k] = r["what"]
+            w = evaluate(case)["what"] if changed_any(case) else None
         except Machinery:
-            _MEMO[k] = None
-    return _MEMO[k] == what
-
-
-def vcands(v):
-    """Simpler versions of one file version."""
-    if v is None:
-        return
-    s = v["l"]
-    if not v["nl"]:
-        yield V(s, True)
-    for i in range(len(s)):
-        yield V(s[:i] + s[i + 1 :], v["nl"] or len(s) == 1)
-    for i in range(len(s)):
-        if s[i] != "Q":
-            yield V(s[:i] + "Q" + s[i + 1 :], v["nl"])
+            w = None
+        _MEMO[k] = w
+    return w == what
 
 
 def candidates(case):
     files = case["files"]
+    nf = len(files)
+
+    def with_file(i, **kw):
+        return dict(case, files=files[:i] + [dict(files[i], **kw)] + files[i + 1 :])
+
     # 1. drop a file
-    if len(files) > 1:
-        for i in range(len(files)):
+    if nf > 1:
+        for i in range(nf):
             yield dict(case, files=files[:i] + files[i + 1 :])
     # 2. parameters
+    params = []
     for p in range(case["p"]):
-        yield dict(case, p=p)
-    if case["f"] != "default" and case["f"] != "invalid":
-        yield dict(case, f="default")
+        params.append({"p": p})
+    if case["f"] not in ("default", "invalid"):
+        params.append({"f": "default"})
+        for p in range(case["p"]):
+            params.append({"f": "default", "p": p})
     if case["x"] != 0:
-        yield dict(case, x=0)
+        params.append({"x": 0})
     if case["style"] != "gnu":
-        yield dict(case, style="gnu")
+        params.append({"style": "gnu"})
+    for kw in params:
+        yield dict(case, **kw)
+    # 3. earlier file name, alone or together with simpler parameters
+    used = {f["name"] for f in files}
+    for i, f in enumerate(files):
+        for name in NAME_POOL[: NAME_POOL.index(f["name"])]:
+            if name in used:
+                continue
+            c = with_file(i, name=name)
+            yield c
+            for kw in params:
+                yield dict(c, **kw)
+    # 4. all lines of one kind become Q
+    for ch in "AHP":
+        if any(ch in (v or {"l": ""})["l"] for f in files for v in (f["old"], f["new"])):
+            yield dict(
+                case,
+                files=[
+                    dict(
+                        f,
+                        old=None if f["old"] is None else V(f["old"]["l"].replace(ch, "Q"), f["old"]["nl"]),
+                        new=None if f["new"] is None else V(f["new"]["l"].replace(ch, "Q"), f["new"]["nl"]),
+                    )
+                    for f in files
+                ],
+            )
+    # 5. file versions
+    def version_steps(f):
+        """(old, new) pairs simpler than f's."""
+        o, n = f["old"], f["new"]
+        if o is not None and n is not None:
+            so, sn = o["l"], n["l"]
+            for a in range(len(so)):
+                for b in range(len(sn)):
+                    if so[a] == sn[b]:
+                        yield V(so[:a] + so[a + 1 :], o["nl"] or len(so) == 1), V(sn[:b] + sn[b + 1 :], n["nl"] or len(sn) == 1)
+            for a in range(len(so)):
+                for b in range(len(sn)):
+                    if so[a] == sn[b] and so[a] != "Q":
+                        yield V(so[:a] + "Q" + so[a + 1 :], o["nl"]), V(sn[:b] + "Q" + sn[b + 1 :], n["nl"])
+            yield None, n
+        for side, v in (("old", o), ("new", n)):
+            if v is None:
+                continue
+            s = v["l"]
+            outs = []
+            if not v["nl"]:
+                outs.append(V(s, True))
+            for k in range(len(s)):
+                outs.append(V(s[:k] + s[k + 1 :], v["nl"] or len(s) == 1))
+            for k in range(len(s)):
+                if s[k] != "Q":
+                    outs.append(V(s[:k] + "Q" + s[k + 1 :], v["nl"]))
+            for w in outs:
+                yield (w, n) if side == "old" else (o, w)
+
+    for i, f in enumerate(files):
+        for o, n in version_steps(f):
+            c = with_file(i, old=o, new=n)
+            yield c
+            # fewer context lines usually need a shorter file to show the same thing
+            for u in range(case["U"]):
+                yield dict(c, U=u)
     for u in range(case["U"]):
         yield dict(case, U=u)
-    # 3. file versions
-    for i, f in enumerate(files):
-
-        def repl(**kw):
-            return dict(case, files=files[:i] + [dict(f, **kw)] + files[i + 1 :])
-
-        if f["old"] is not None and f["new"] is not None:
-            yield repl(old=None)
-            # remove / simplify the same line on both sides (common prefix or suffix position)
-            so, sn = f["old"]["l"], f["new"]["l"]
-            for k in range(min(len(so), len(sn))):
-                if so[k] == sn[k]:
-                    yield repl(old=V(so[:k] + so[k + 1 :], f["old"]["nl"]), new=V(sn[:k] + sn[k + 1 :], f["new"]["nl"]))
-                if so[-1 - k] == sn[-1 - k]:
-                    ko, kn = len(so) - 1 - k, len(sn) - 1 - k
-                    yield repl(old=V(so[:ko] + so[ko + 1 :], f["old"]["nl"]), new=V(sn[:kn] + sn[kn + 1 :], f["new"]["nl"]))
-            for k in range(min(len(so), len(sn))):
-                if so[k] == sn[k] and so[k] != "Q":
-                    yield repl(old=V(so[:k] + "Q" + so[k + 1 :], f["old"]["nl"]), new=V(sn[:k] + "Q" + sn[k + 1 :], f["new"]["nl"]))
-        for v in vcands(f["old"]):
-            yield repl(old=v)
-        for v in vcands(f["new"]):
-            yield repl(new=v)
-        # simpler name
-        if f["name"] != "x.rs" and all(g["name"] != "x.rs" for g in files):
-            yield repl(name="x.rs")
 
 
 def reduce_case(item):
     case, what = item
     cur = case
-    steps = 0
-    progress = True
-    while progress and steps < 200:
-        progress = False
+    path = []
+    found = None
+    for _ in range(300):
+        key = case_id(cur) + "#" + what
+        w = _WIT.get(key)
+        if w is not None:
+            found = json.loads(w)
+            break
+        path.append(key)
+        nxt = None
         for cand in candidates(cur):
             cand = dict(cand, files=sorted(cand["files"], key=lambda f: f["name"]))
             if still_fails(cand, what):
-                cur = cand
-                steps += 1
-                progress = True
+                nxt = cand
                 break
-    return cur
+        if nxt is None:
+            found = cur
+            break
+        cur = nxt
+    if found is None:
+        found = cur
+    js = json.dumps(found)
+    for key in path:
+        _WIT[key] = js
+    return found
 
 
 def witness_key(c):
@@ -916,6 +965,7 @@ def main():
         dcs = enumerate_diffcases(run.thorough)
         run.count("tree_pairs", len({tree_repr(d["files"]) for d in dcs}))
         results = pmap(run_diffcase, dcs)
+        print(f"[C19] main pass done at {time.time() - run.start:.1f}s", file=sys.stderr)
         errs = [r["err"] for r in results if r["err"]]
         if errs:
             for e in errs[:10]:
@@ -932,27 +982,26 @@ def main():
                 run.sample(r["sample"], limit=4)
             fails += r["fail"]
         run.count("violating_runs", len(fails))
-        # determinism: re-run every failing case once
-        def recheck(item):
-            case, what = item
-            try:
-                return evaluate(case)["what"]
-            except Machinery as e:
-                return f"machinery: {e}"
+        # every violating run is reduced; the witness is run again (twice in total) before it is
+        # reported, and a violating run that does not reproduce is its own witness and is reported
+        # as nondeterministic by that second run
+        stable = fails
+        global _MEMO, _WIT
+        mgr = None
+        if len(stable) > 50:
+            import multiprocessing
 
-        second = pmap(recheck, fails)
-        stable = []
-        for (case, what), w2 in zip(fails, second):
-            if w2 != what:
-                run.violation(case_id(case), "nondeterministic", {"case": case, "first": what, "second": w2})
-            else:
-                stable.append((case, what))
-        witnesses = parallel_map(reduce_case, stable)
+            mgr = multiprocessing.get_context("fork").Manager()
+            _MEMO, _WIT = mgr.dict(), mgr.dict()
+        witnesses = pmap(reduce_case, stable, chunk=8)
+        run.count("reduction_runs", len(_MEMO))
+        if mgr is not None:
+            mgr.shutdown()
+        print(f"[C19] reduced at {time.time() - run.start:.1f}s", file=sys.stderr)
         groups = {}
         for (case, what), w in zip(stable, witnesses):
             g = groups.setdefault((case_id(w), what), {"case": w, "what": what, "from": []})
             g["from"].append(case_id(case))
-        run.count("reduction_runs", len(_MEMO))
         for (wid, what), g in sorted(groups.items(), key=lambda kv: (witness_key(kv[1]["case"]), kv[0][1])):
             res = evaluate(g["case"])
             if res["what"] != what:
